@@ -17,25 +17,21 @@ theorem canon_kp {k : Key} (hk : PKey k) : CPath.Canon { rooted := true, comps :
 theorem render_kp (k : Key) : CPath.render { rooted := true, comps := k } = kp k := by
   simp [CPath.render, kp]
 
-theorem cleanC_kp {k : Key} (hk : PKey k) : cleanC (kp k) = { rooted := true, comps := k } := by
+theorem oscleanC_kp {k : Key} (hk : PKey k) : cleanC (kp k) = { rooted := true, comps := k } := by
   rw [← render_kp k]
   exact cleanC_render (canon_kp hk)
 
-theorem clean_kp {k : Key} (hk : PKey k) : clean (kp k) = kp k := by
+theorem osclean_kp {k : Key} (hk : PKey k) : clean (kp k) = kp k := by
   unfold clean
-  rw [cleanC_kp hk, render_kp]
+  rw [oscleanC_kp hk, render_kp]
 
-theorem mk_kp {k : Key} (hk : PKey k) : PrefixFS.mk (kp k) = kp k := clean_kp hk
-
-theorem kp_ne_nil (k : Key) : kp k ≠ [] := by simp [kp]
-
-theorem isRooted_kp (k : Key) : isRooted (kp k) = true := by simp [kp, isRooted]
+theorem mk_kp {k : Key} (hk : PKey k) : PrefixFS.mk (kp k) = kp k := osclean_kp hk
 
 theorem staysInside_kp (k : Key) : StaysInside (kp k) := staysInside_of_abs (isRooted_kp k)
 
-theorem join_kp {b k : Key} (hb : PKey b) (hk : PKey k) : join (kp b) (clean (kp k)) = kp (b ++ k) := by
+theorem osjoin_kp {b k : Key} (hb : PKey b) (hk : PKey k) : join (kp b) (clean (kp k)) = kp (b ++ k) := by
   have h1 := cleanC_join_clean (kp_ne_nil b) (staysInside_kp k)
-  rw [cleanC_kp hb, cleanC_kp hk, isRooted_kp] at h1
+  rw [oscleanC_kp hb, oscleanC_kp hk, isRooted_kp] at h1
   have h2 := join_clean_is_clean (kp b) (clean (kp k)) (kp_ne_nil b)
   rw [← h2]
   show (cleanC (join (kp b) (clean (kp k)))).render = _
@@ -44,7 +40,7 @@ theorem join_kp {b k : Key} (hb : PKey b) (hk : PKey k) : join (kp b) (clean (kp
 
 theorem prefixPath_kp {b k : Key} (hb : PKey b) (hk : PKey k) :
     prefixPath (kp b) (kp k) = .ok (kp (b ++ k)) := by
-  rw [prefixPath_staysInside (kp_ne_nil b) (staysInside_kp k), join_kp hb hk]
+  rw [prefixPath_staysInside (kp_ne_nil b) (staysInside_kp k), osjoin_kp hb hk]
 
 /-! ### the translated calls -/
 
